@@ -352,6 +352,17 @@ fn gen_event(rng: &mut Rng, me: &str) -> Value {
     if rng.chance(1, 4) {
         ev.insert("room_id".into(), json!(*rng.pick(ROOMS)));
     }
+    // properties whose path merely ends in (or, unescaped, looks like) one of the special keys
+    if rng.chance(1, 5) {
+        let b = if rng.chance(1, 2) { (*rng.pick(BODIES)).to_owned() } else { long_pair(rng).1 };
+        ev.insert(
+            (*rng.pick(&["x", "unsigned", "k"])).into(),
+            json!({"content": {"body": b}, "room_id": *rng.pick(ROOMS), "sender": *rng.pick(USERS)}),
+        );
+    }
+    if rng.chance(1, 8) {
+        ev.insert("content.body".into(), json!(*rng.pick(BODIES)));
+    }
     if !rng.chance(1, 8) {
         let mut c = match gen_obj(rng, 1) {
             Value::Object(m) => m,
@@ -480,8 +491,10 @@ fn gen_cond(rng: &mut Rng, flat: &[(String, Value)], members: u64) -> Value {
             let key = any_key(rng);
             let val = match flat.iter().find(|(k, _)| *k == key) {
                 Some((_, v)) if !v.is_array() && !v.is_object() && !v.is_f64() && v.as_u64().map_or(true, |u| u <= 1 << 53) && !rng.chance(1, 4) => {
-                    match v.as_i64() {
-                        Some(i) if i.unsigned_abs() >= 1 << 53 => gen_scalar(rng),
+                    match (v.as_i64(), v.as_str()) {
+                        (Some(i), _) if i.unsigned_abs() >= 1 << 53 => gen_scalar(rng),
+                        // exact value match is case sensitive
+                        (_, Some(t)) if rng.chance(1, 3) => json!(flip_case(rng, t)),
                         _ => v.clone(),
                     }
                 }
@@ -626,6 +639,149 @@ pub fn gen_match(rng: &mut Rng, extra: &mut Vec<Req>) -> (String, String) {
     (payload, cls)
 }
 
+// ---------------------------------------------------------------------------------------------
+// the server-default ruleset on realistic events
+
+fn cond_json(c: &ruma_common::push::PushCondition) -> Value {
+    use ruma_common::push::{ComparisonOperator as Op, PushCondition as C};
+    match c {
+        C::EventMatch { key, pattern } => json!(["event_match", key, pattern]),
+        C::ContainsDisplayName => json!(["contains_display_name"]),
+        C::RoomMemberCount { is } => {
+            let op = match is.prefix {
+                Op::Eq => "==",
+                Op::Lt => "<",
+                Op::Gt => ">",
+                Op::Ge => ">=",
+                Op::Le => "<=",
+            };
+            json!(["room_member_count", op, u64::from(is.count)])
+        }
+        C::SenderNotificationPermission { key } => json!(["sender_notification_permission", key]),
+        C::EventPropertyIs { key, value } => {
+            json!(["event_property_is", key, serde_json::to_value(value).unwrap()])
+        }
+        C::EventPropertyContains { key, value } => {
+            json!(["event_property_contains", key, serde_json::to_value(value).unwrap()])
+        }
+        _ => json!(["custom"]),
+    }
+}
+
+/// `Ruleset::server_default(user)` — the real predefined rules — in the request format, with some
+/// rules switched off.
+fn default_ruleset(rng: &mut Rng, me: &str) -> Value {
+    use ruma_common::push::{AnyPushRuleRef as R, Ruleset};
+    let rs = Ruleset::server_default(<&ruma_common::UserId>::try_from(me).unwrap());
+    let mut kinds: [Vec<Value>; 5] = Default::default();
+    for r in rs.iter() {
+        let en = r.enabled() && !rng.chance(1, 12);
+        match r {
+            R::Override(x) => kinds[0].push(json!([en, x.rule_id, x.conditions.iter().map(cond_json).collect::<Vec<_>>()])),
+            R::Content(x) => kinds[1].push(json!([en, x.rule_id, x.pattern])),
+            R::Room(x) => kinds[2].push(json!([en, x.rule_id.as_str()])),
+            R::Sender(x) => kinds[3].push(json!([en, x.rule_id.as_str()])),
+            R::Underride(x) => kinds[4].push(json!([en, x.rule_id, x.conditions.iter().map(cond_json).collect::<Vec<_>>()])),
+            _ => {}
+        }
+    }
+    // user rules in front of / behind the predefined ones
+    if rng.chance(1, 3) {
+        kinds[2].push(json!([true, *rng.pick(ROOMS)]));
+    }
+    if rng.chance(1, 3) {
+        kinds[3].push(json!([!rng.chance(1, 4), *rng.pick(USERS)]));
+    }
+    if rng.chance(1, 3) {
+        kinds[1].insert(0, json!([true, "kw", *rng.pick(&["lunch", "lunc?*", "me", "plans", "*"])]));
+    }
+    Value::Array(kinds.into_iter().map(Value::Array).collect())
+}
+
+fn realistic_event(rng: &mut Rng, me: &str, display: &str) -> Value {
+    let local = me.trim_start_matches('@').split(':').next().unwrap_or("");
+    let others: Vec<&str> = USERS.iter().copied().filter(|u| *u != me).collect();
+    let sender = if rng.chance(1, 10) { me } else { *rng.pick(&others) };
+    let body = match rng.below(8) {
+        0 => format!("hello {display}, lunch?"),
+        1 => format!("{local}: ping"),
+        2 => "@room everybody".to_owned(),
+        3 => format!("x{display}x and {local}s"),
+        4 => (*rng.pick(BODIES)).to_owned(),
+        5 => display.to_uppercase(),
+        _ => "Lunch plans".to_owned(),
+    };
+    let mut content = match rng.below(14) {
+        0 => json!({"membership": "invite"}),
+        1 => json!({"membership": *rng.pick(&["join", "leave", "ban"])}),
+        2 => json!({"m.relates_to": {"rel_type": "m.annotation", "event_id": "$e", "key": "👍"}}),
+        3 => json!({"body": "This room has been replaced", "replacement_room": "!new:example.org"}),
+        4 => json!({"allow": ["*"], "deny": []}),
+        5 => json!({"algorithm": "m.megolm.v1.aes-sha2", "ciphertext": "AAAA", "session_id": "s"}),
+        6 => json!({"call_id": "c", "version": "1", "lifetime": 60000, "offer": {"type": "offer", "sdp": ""}}),
+        7 => json!({"msgtype": "m.text", "body": format!("* {body}"), "m.new_content": {"msgtype": "m.text", "body": body},
+                    "m.relates_to": {"rel_type": "m.replace", "event_id": "$e"}}),
+        8 => json!({"msgtype": "m.notice", "body": body}),
+        9 => json!({"org.matrix.msc3381.poll.start": {"question": {"org.matrix.msc1767.text": body}, "answers": []}}),
+        _ => json!({"msgtype": *rng.pick(&["m.text", "m.text", "m.emote"]), "body": body}),
+    };
+    let ty = match content {
+        ref c if c.get("membership").is_some() => "m.room.member",
+        ref c if c.get("replacement_room").is_some() => "m.room.tombstone",
+        ref c if c.get("allow").is_some() => "m.room.server_acl",
+        ref c if c.get("algorithm").is_some() => "m.room.encrypted",
+        ref c if c.get("call_id").is_some() => "m.call.invite",
+        ref c if c.get("org.matrix.msc3381.poll.start").is_some() => "org.matrix.msc3381.poll.start",
+        ref c if c.get("msgtype").is_none() => "m.reaction",
+        _ => "m.room.message",
+    };
+    match rng.below(6) {
+        0 => {
+            content["m.mentions"] = json!({"user_ids": [me]});
+        }
+        1 => {
+            content["m.mentions"] = json!({"room": true});
+        }
+        2 => {
+            content["m.mentions"] = json!({"user_ids": ["@other:example.org"], "room": rng.chance(1, 2)});
+        }
+        3 => {
+            content["m.mentions"] = json!({});
+        }
+        _ => {}
+    }
+    let mut ev = json!({"type": ty, "sender": sender, "event_id": "$ev", "room_id": "!room:example.org",
+                        "origin_server_ts": 1, "content": content});
+    if matches!(ty, "m.room.member") {
+        ev["state_key"] = json!(if rng.chance(2, 3) { me } else { "@bob:example.org" });
+    }
+    if matches!(ty, "m.room.tombstone" | "m.room.server_acl") {
+        ev["state_key"] = json!("");
+    }
+    ev
+}
+
+pub fn gen_default(rng: &mut Rng) -> (String, String) {
+    let me = *rng.pick(&["@me:example.org", "@alice:example.org"]);
+    let display = *rng.pick(&["me", "Alice", "Al*", "?", "Groovy Gorilla", ""]);
+    let ev = realistic_event(rng, me, display);
+    let rs = default_ruleset(rng, me);
+    let pl = if rng.chance(1, 5) {
+        Value::Null
+    } else {
+        let mut users = Map::new();
+        for u in USERS {
+            if rng.chance(1, 2) {
+                users.insert((*u).to_owned(), json!(*rng.pick(LEVELS)));
+            }
+        }
+        json!([Value::Object(users), *rng.pick(&[0, 0, 50]), *rng.pick(&[50, 50, 0, 100])])
+    };
+    let ctx = json!([*rng.pick(&["!room:example.org", "!other:example.org"]), *rng.pick(&[1u64, 2, 2, 3, 10]), me, display, pl]);
+    let payload = format!("{} {} {}", h_util::jtoks(&rs), h_util::jtoks(&ctx), h_util::jtoks(&ev));
+    (payload, format!("default.{}", ev["type"].as_str().unwrap_or("?").rsplit('.').next().unwrap_or("?")))
+}
+
 pub fn gen(rng: &mut Rng, n: usize, tier: &str) -> Vec<Req> {
     refm::check_pool(POOL);
     refm::check_pool(PAT_ALPHA);
@@ -678,6 +834,12 @@ pub fn gen(rng: &mut Rng, n: usize, tier: &str) -> Vec<Req> {
     }
     for _ in 0..(n / 10).max(50) {
         gen_count(rng, &mut out);
+    }
+    // (e) the real server-default ruleset (some rules switched off, a few user rules) on realistic events
+    for _ in 0..(n / 6) {
+        let (payload, cls) = gen_default(rng);
+        out.push(Req::new(format!("c12.match {payload}"), cls.clone()));
+        out.push(Req::new(format!("c12.spec.match {payload}"), format!("spec.{cls}")));
     }
     // (c) rulesets × contexts × events
     for _ in 0..(n - 2 * k) {
